@@ -9,7 +9,8 @@ _STUB = ["meta service (not needed at shard level)", "SQL layer (statements pars
 WORLDS = {
     "C": {"pkg": "engine", "harness": "engine", "test": "TestVerifWorldC", "cpu": 4, "real": _REAL, "stub": _STUB,
           "harness_files": ["s_*.go", "c_*.go"],
-          "extra_overlay": {"engine/immutable/zz_verif_dbg.go": "hooks/immutable_dbg.go"}},
+          "extra_overlay": {"engine/immutable/zz_verif_dbg.go": "hooks/immutable_dbg.go",
+                            "engine/immutable/zz_verif_c_hook.go": "hooks/c_immutable_hook.go"}},
 }
 
 PROPS = {
